@@ -100,7 +100,11 @@ def run_case(case):
             stats["returned_objects"] += 1
             if kind == "obj":
                 continue
-            if snap(obj) != s0:
+            try:
+                changed = snap(obj) != s0
+            except Exception:
+                changed = True   # the object was left in a state that cannot even be read any more
+            if changed:
                 sig = f"C11|returned_modified|{kind}|{case['fmt'] if kind in ('jac', 'hess') else 'array'}"
                 if sig not in seen_ids:
                     seen_ids.add(sig)
